@@ -75,7 +75,7 @@ decreasing_by
   all_goals simp_wf
   all_goals (simp only [Re.size]; first | omega | (apply Prod.Lex.left; omega) | (apply Prod.Lex.right; omega))
 
-def guardOpt {α : Type} (b : Bool) (x : Option α) : Option α :=
+@[macro_inline] def guardOpt {α : Type} (b : Bool) (x : Option α) : Option α :=
   match b with
   | true => x
   | false => none
